@@ -161,8 +161,9 @@ Definition in_run (p : pcT) : bool :=
 Definition in_start (p : pcT) : bool :=
   match p with PExt ALockIn | PWoken ALockIn | PExt ALockOutAbort | PWoken ALockOutAbort => true | _ => in_run p end.
 Definition code_state (c : Z) : jstate := if c =? 0 then DONE else ERROR.
+Definition is_adopt (p : pcT) : bool := match p with PExt AAdopt | PWoken AAdopt => true | _ => false end.
 
-Record linv (ds : list dep) (mk : bool) (code : Z) (r : jst) : Prop := {
+Record linv (ds : list dep) (mk : bool) (code : Z) (ad : option jstate) (r : jst) : Prop := {
   l_A : past_loop (pc r) = true -> finished (st r) = true;
   l_D : st r = DONE -> past_loop (pc r) = true;
   l_EV : pc r = PAwaitReady -> ev r = false /\ st r = WAITING /\ uns r <> 0;
@@ -170,20 +171,22 @@ Record linv (ds : list dep) (mk : bool) (code : Z) (r : jst) : Prop := {
   l_L1 : (launches r <= 1)%nat;
   l_run : in_run (pc r) = true -> launches r = 1%nat;
   l_L2 : launches r = 1%nat -> mk = false /\ (in_run (pc r) = true \/ (past_loop (pc r) = true /\ st r = code_state code));
-  l_L0 : launches r = 0%nat -> st r = DONE -> mk = true;
-  l_mk : mk = true -> started (pc r) = true -> st r = DONE;
-  l_E : st r = ERROR -> launches r = 0%nat -> fdep r = true;
-  l_EN : st r = ERROR -> pc r = PWokenReady \/ past_loop (pc r) = true;
+  l_L0 : launches r = 0%nat -> st r = DONE -> (ad = None /\ mk = true) \/ ad = Some DONE;
+  l_mk : mk = true -> ad = None -> started (pc r) = true -> st r = DONE;
+  l_E : ad = None -> st r = ERROR -> launches r = 0%nat -> fdep r = true;
+  l_EN : st r = ERROR -> pc r = PWokenReady \/ past_loop (pc r) = true \/ is_adopt (pc r) = true;
   l_un : started (pc r) = false -> launches r = 0%nat /\ held r = [] /\ st r = UNSCHEDULED /\ fdep r = false /\ cur r = [] /\ uns r = 0;
-  l_F : (exists i, nth_error (cur r) i = Some DFAIL) -> finished (st r) = true;
+  l_F : (exists i, nth_error (cur r) i = Some DFAIL) -> finished (st r) = true \/ is_adopt (pc r) = true;
   l_held : held r <> [] -> pc r = PWoken ALockIn \/ pc r = PExt ALockOutAbort \/ pc r = PWoken ALockOutAbort \/ in_run (pc r) = true;
   l_WR : pc r = PWokenReady -> ev r = true;
   l_RS : st r = READY -> started (pc r) = true;
   l_WS : pc r = PWokenReady -> st r = READY \/ st r = ERROR;
-  l_RT : forall v, pc r = PReturned v -> st r = v
+  l_RT : forall v, pc r = PReturned v -> st r = v;
+  l_ad : ad <> None -> started (pc r) = true -> is_adopt (pc r) = true \/ (past_loop (pc r) = true /\ Some (st r) = ad);
+  l_adpc : is_adopt (pc r) = true -> ad <> None
 }.
 
-Lemma linv_jst0 : forall ds mk code, linv ds mk code jst0.
+Lemma linv_jst0 : forall ds mk code ad, linv ds mk code ad jst0.
 Proof.
   intros; constructor; simpl; try discriminate; auto; try lia; try (intros; repeat split; auto; fail);
     try (intros X; exfalso; apply X; reflexivity);
@@ -191,14 +194,14 @@ Proof.
 Qed.
 
 (* an asynchronous check preserves the local invariant *)
-Lemma linv_async : forall ds mk code r r',
-  linv ds mk code r -> started (pc r) = true -> async_ok r r' ->
+Lemma linv_async : forall ds mk code ad r r',
+  linv ds mk code ad r -> started (pc r) = true -> async_ok r r' ->
   (in_start (pc r) = true -> st r' = ERROR -> st r = ERROR) ->
   uns r' = Z.of_nat (count_nok (cur r')) ->
   ((exists i, nth_error (cur r') i = Some DFAIL) -> (exists i, nth_error (cur r) i = Some DFAIL) \/ finished (st r') = true) ->
-  linv ds mk code r'.
+  linv ds mk code ad r'.
 Proof.
-  intros ds mk code r r' L S A Hnf Hu Hf.
+  intros ds mk code ad r r' L S A Hnf Hu Hf.
   destruct A as [Ah Al Ap Ae As Afd Alen Aw Aes Au0 Af2].
   assert (PC : pc r' = pc r \/ (pc r = PAwaitReady /\ pc r' = PWokenReady /\ ev r = false)) by (destruct Ap as [?|(?&?&?&?)]; auto).
   assert (FIN : finished (st r) = true -> st r' = st r).
@@ -225,24 +228,28 @@ Proof.
     + right. pose proof (l_A L P) as F. rewrite (FIN F). destruct PC as [E|(E&_)]; [split; congruence|].
       rewrite E in P; discriminate.
   - intros L0 D. rewrite Al in L0. apply (l_L0 L L0). destruct As as [E|[(?&E&_)|(?&E&_)]]; congruence.
-  - intros M _. pose proof (l_mk L M S) as D. rewrite FIN; auto. rewrite D; auto.
-  - intros E L0. rewrite Al in L0. destruct As as [X|[(_&_&X&_)|(_&X&_)]]; auto; try congruence.
+  - intros M AD _. pose proof (l_mk L M AD S) as D. rewrite FIN; auto. rewrite D; auto.
+  - intros AD E L0. rewrite Al in L0. destruct As as [X|[(_&_&X&_)|(_&X&_)]]; auto; try congruence.
     apply Afd. apply (l_E L); congruence.
   - (* EN *) intros E.
     destruct As as [X|[(NF&_&_&EV)|(_&X&_)]]; try congruence.
-    + rewrite X in E. destruct (l_EN L E) as [P|P].
+    + rewrite X in E. destruct (l_EN L E) as [P|[P|P]].
       * left. destruct PC as [E'|(E'&_)]; congruence.
-      * right. destruct PC as [E'|(E'&_)]; [congruence|]. rewrite E' in P; discriminate.
+      * right; left. destruct PC as [E'|(E'&_)]; [congruence|]. rewrite E' in P; discriminate.
+      * right; right. destruct PC as [E'|(E'&_)]; [congruence|]. rewrite E' in P; discriminate.
     + destruct (pc r) eqn:P; simpl in S; try discriminate.
       * left. apply Aw; auto. apply (l_EV L P).
       * left. destruct PC as [?|(?&_)]; congruence.
       * destruct a; try (exfalso; assert (st r = ERROR) by (apply Hnf; auto); rewrite H in NF; discriminate).
-        pose proof (l_A L) as F. rewrite P in F. simpl in F. rewrite F in NF; auto. discriminate.
+        -- pose proof (l_A L) as F. rewrite P in F. simpl in F. rewrite F in NF; auto. discriminate.
+        -- right; right. destruct PC as [E'|(E'&_)]; [rewrite E'; reflexivity|discriminate].
       * destruct a; try (exfalso; assert (st r = ERROR) by (apply Hnf; auto); rewrite H in NF; discriminate).
-        pose proof (l_A L) as F. rewrite P in F. simpl in F. rewrite F in NF; auto. discriminate.
+        -- pose proof (l_A L) as F. rewrite P in F. simpl in F. rewrite F in NF; auto. discriminate.
+        -- right; right. destruct PC as [E'|(E'&_)]; [rewrite E'; reflexivity|discriminate].
       * pose proof (l_A L) as F. rewrite P in F. simpl in F. rewrite F in NF; auto. discriminate.
   - intros NS. exfalso. destruct PC as [E|(_&E&_)]; rewrite E in NS; [congruence|discriminate].
-  - intros X. destruct (Hf X) as [Y|Y]; auto. pose proof (l_F L Y) as F. rewrite (FIN F). exact F.
+  - intros X. destruct (Hf X) as [Y|Y]; auto. destruct (l_F L Y) as [F|F]; [left; rewrite (FIN F); exact F|right].
+    destruct PC as [E|(E&_)]; [congruence|]. rewrite E in F; discriminate.
   - rewrite Ah. intros H. destruct (l_held L H) as [P|[P|[P|P]]]; destruct PC as [E|(E&_)]; rewrite ?E in *; try discriminate; tauto.
   - intros P. destruct Ap as [E|(_&_&_&E)]; auto.
     rewrite E in P. apply Ae. apply (l_WR L P).
@@ -257,74 +264,87 @@ Proof.
   - intros v P. destruct PC as [E|(_&E&_)]; [|congruence]. rewrite E in P.
     pose proof (l_RT L P) as X. assert (F : finished (st r) = true) by (apply (l_A L); rewrite P; auto).
     rewrite (FIN F). exact X.
+  - intros AD _. destruct (l_ad L AD S) as [X|(X & Y)].
+    + left. destruct PC as [E|(E&_)]; [congruence|]. rewrite E in X; discriminate.
+    + right. pose proof (l_A L X) as F. rewrite (FIN F). destruct PC as [E|(E&_)]; [split; congruence|].
+      rewrite E in X; discriminate.
+  - intros X. apply (l_adpc L). destruct PC as [E|(_&E&_)]; [congruence|]. rewrite E in X; discriminate.
 Qed.
 
 (* ------------------------------------------------------------------ the coroutine's own steps (job-local part) *)
 (* the facts that do not mention the program counter *)
-Record lmid (ds : list dep) (mk : bool) (code : Z) (r : jst) : Prop := {
+Record lmid (ds : list dep) (mk : bool) (code : Z) (ad : option jstate) (r : jst) : Prop := {
   m_CI : length (cur r) = length ds /\ uns r = Z.of_nat (count_nok (cur r));
   m_L1 : (launches r <= 1)%nat;
   m_mk1 : launches r = 1%nat -> mk = false;
-  m_L0 : launches r = 0%nat -> st r = DONE -> mk = true;
-  m_mk : mk = true -> st r = DONE;
-  m_E : st r = ERROR -> launches r = 0%nat -> fdep r = true;
+  m_L0 : launches r = 0%nat -> st r = DONE -> (ad = None /\ mk = true) \/ ad = Some DONE;
+  m_mk : mk = true -> ad = None -> st r = DONE;
+  m_E : ad = None -> st r = ERROR -> launches r = 0%nat -> fdep r = true;
   m_F : (exists i, nth_error (cur r) i = Some DFAIL) -> finished (st r) = true;
   m_held : held r = [];
   m_fin : finished (st r) = true -> launches r = 1%nat -> st r = code_state code;
-  m_nf : finished (st r) = false -> launches r = 0%nat
+  m_nf : finished (st r) = false -> launches r = 0%nat;
+  m_ad : ad <> None -> Some (st r) = ad /\ finished (st r) = true
 }.
 
-Lemma lmid_ev : forall ds mk code r b, lmid ds mk code r -> lmid ds mk code (w_ev r b).
-Proof. intros ds mk code r b [? ? ? ? ? ? ? ? ? ?]; constructor; simpl; auto. Qed.
+Lemma lmid_ev : forall ds mk code ad r b, lmid ds mk code ad r -> lmid ds mk code ad (w_ev r b).
+Proof. intros ds mk code ad r b [? ? ? ? ? ? ? ? ? ? ?]; constructor; simpl; auto. Qed.
 
-Lemma linv_doneh : forall ds mk code r, lmid ds mk code r -> finished (st r) = true ->
-  linv ds mk code (w_pc r (PExt ADoneH)).
+Lemma linv_doneh : forall ds mk code ad r, lmid ds mk code ad r -> finished (st r) = true ->
+  linv ds mk code ad (w_pc r (PExt ADoneH)).
 Proof.
-  intros ds mk code r [? ? ? ? ? ? ? ? ? ?] F; constructor; simpl; auto; try discriminate; try congruence.
+  intros ds mk code ad r [CI L1 MK1 L0 MK ME MF MH MFIN MNF MAD] F; constructor; simpl; auto; try discriminate; try congruence.
+  intros AD _. right. split; auto. apply MAD; auto.
 Qed.
 
-Lemma linv_awaitready : forall ds mk code r, lmid ds mk code r -> st r = WAITING -> ev r = false -> uns r <> 0 ->
-  linv ds mk code (w_pc r PAwaitReady).
+Lemma linv_awaitready : forall ds mk code ad r, lmid ds mk code ad r -> st r = WAITING -> ev r = false -> uns r <> 0 ->
+  linv ds mk code ad (w_pc r PAwaitReady).
 Proof.
-  intros ds mk code r [CI L1 MK1 L0 MK ME MF MH MFIN MNF] S E U; constructor; simpl; auto; try discriminate; try congruence.
+  intros ds mk code ad r [CI L1 MK1 L0 MK ME MF MH MFIN MNF MAD] S E U.
+  assert (ADN : ad = None).
+  { destruct ad; auto. destruct MAD as (_ & X); [discriminate|]. rewrite S in X. discriminate. }
+  constructor; simpl; auto; try discriminate; try congruence.
   intros L. rewrite S in MNF. simpl in MNF. rewrite MNF in L; auto. discriminate.
 Qed.
 
-Lemma linv_lockin : forall ds mk code r, lmid ds mk code r -> st r = READY ->
-  linv ds mk code (w_pc r (PExt ALockIn)).
+Lemma linv_lockin : forall ds mk code ad r, lmid ds mk code ad r -> st r = READY ->
+  linv ds mk code ad (w_pc r (PExt ALockIn)).
 Proof.
-  intros ds mk code r [CI L1 MK1 L0 MK ME MF MH MFIN MNF] S; constructor; simpl; auto; try discriminate; try congruence.
+  intros ds mk code ad r [CI L1 MK1 L0 MK ME MF MH MFIN MNF MAD] S.
+  assert (ADN : ad = None).
+  { destruct ad; auto. destruct MAD as (_ & X); [discriminate|]. rewrite S in X. discriminate. }
+  constructor; simpl; auto; try discriminate; try congruence.
   intros L. rewrite S in MNF. simpl in MNF. rewrite MNF in L; auto. discriminate.
 Qed.
 
-Lemma finish_l_ok : forall ds mk code r, lmid ds mk code r -> finished (st r) = true ->
-  linv ds mk code (fst (finish_l r)).
+Lemma finish_l_ok : forall ds mk code ad r, lmid ds mk code ad r -> finished (st r) = true ->
+  linv ds mk code ad (fst (finish_l r)).
 Proof. intros. simpl. apply linv_doneh; auto. Qed.
 
-Lemma loop_tail_l_ok : forall ds mk code r, lmid ds mk code r ->
+Lemma loop_tail_l_ok : forall ds mk code ad r, lmid ds mk code ad r ->
   (finished (st r) = false -> st r = WAITING /\ ev r = false /\ uns r <> 0) ->
-  linv ds mk code (fst (loop_tail_l r)).
+  linv ds mk code ad (fst (loop_tail_l r)).
 Proof.
-  intros ds mk code r M H. unfold loop_tail_l. destruct (finished (st r)) eqn:F.
+  intros ds mk code ad r M H. unfold loop_tail_l. destruct (finished (st r)) eqn:F.
   - apply finish_l_ok; auto.
   - destruct (H eq_refl) as (?&?&?). simpl. apply linv_awaitready; auto.
 Qed.
 
-Lemma after_ready_l_ok : forall ds mk code r, lmid ds mk code r ->
+Lemma after_ready_l_ok : forall ds mk code ad r, lmid ds mk code ad r ->
   (st r = READY \/ finished (st r) = true \/ (st r = WAITING /\ uns r <> 0)) ->
-  linv ds mk code (fst (after_ready_l r)).
+  linv ds mk code ad (fst (after_ready_l r)).
 Proof.
-  intros ds mk code r M H. unfold after_ready_l. simpl.
+  intros ds mk code ad r M H. unfold after_ready_l. simpl.
   destruct (st r) eqn:S; try (apply loop_tail_l_ok; [apply lmid_ev; auto|simpl; rewrite S; simpl; intros; try discriminate;
      destruct H as [?|[?|(?&?)]]; try discriminate; auto]).
   simpl. apply linv_lockin; [apply lmid_ev; auto|simpl; auto].
 Qed.
 
-Lemma main_loop_l_ok : forall ds mk code r, lmid ds mk code r ->
+Lemma main_loop_l_ok : forall ds mk code ad r, lmid ds mk code ad r ->
   (st r = READY /\ ev r = true \/ finished (st r) = true \/ (st r = WAITING /\ uns r <> 0)) ->
-  linv ds mk code (fst (main_loop_l r)).
+  linv ds mk code ad (fst (main_loop_l r)).
 Proof.
-  intros ds mk code r M H. unfold main_loop_l. destruct (finished (st r)) eqn:F.
+  intros ds mk code ad r M H. unfold main_loop_l. destruct (finished (st r)) eqn:F.
   - apply finish_l_ok; auto.
   - destruct (ev r) eqn:E.
     + apply after_ready_l_ok; auto. destruct H as [(?&?)|[?|?]]; auto; congruence.
@@ -435,10 +455,10 @@ Proof.
   destruct (ev r); [apply after_ready_l_shape|]. unfold loop_shape; simpl. intuition congruence.
 Qed.
 
-Lemma spawn_l_ok : forall ds mk code r news,
-  linv ds mk code r -> pc r = PSpawned -> length news = length ds ->
-  let p := spawn_l true mk r news in
-  linv ds mk code (fst p) /\ cur (fst p) = news /\ started (pc (fst p)) = true /\
+Lemma spawn_l_ok : forall ds mk code ad r news,
+  linv ds mk code ad r -> pc r = PSpawned -> length news = length ds ->
+  let p := spawn_l true mk (is_some_b ad) r news in
+  linv ds mk code ad (fst p) /\ cur (fst p) = news /\ started (pc (fst p)) = true /\
   (snd p = true <-> (past_loop (pc (fst p)) = true /\ st (fst p) <> DONE)) /\
   (st (fst p) = READY -> forall i d, nth_error news i = Some d -> d = DOK) /\
   held (fst p) = [] /\ launches (fst p) = 0%nat /\
@@ -446,9 +466,9 @@ Lemma spawn_l_ok : forall ds mk code r news,
   (in_start (pc (fst p)) = true -> st (fst p) = READY) /\
   (fdep (fst p) = true -> exists i, nth_error news i = Some DFAIL) /\
   counted (pc (fst p)) = true /\
-  (pc (fst p) = PExt ADoneH \/ pc (fst p) = PAwaitReady \/ pc (fst p) = PExt ALockIn).
+  (pc (fst p) = PExt ADoneH \/ pc (fst p) = PAwaitReady \/ pc (fst p) = PExt ALockIn \/ pc (fst p) = PExt AAdopt).
 Proof.
-  intros ds mk code r news L P Len p.
+  intros ds mk code ad r news L P Len p.
   assert (NS : started (pc r) = false) by (rewrite P; auto).
   destruct (l_un L NS) as (Ul & Uh & Us & Uf & Uc & Uu).
   set (r0 := w_st (w_ev r false) WAITING).
@@ -472,10 +492,24 @@ Proof.
       + intros X. congruence. }
   destruct R1 as (R1 & C1). destruct R1 as [Rl Ru Rla Rh Rp Rs Rf Rfd].
   set (r2 := if mk then w_st r1 DONE else r1).
-  assert (M2 : lmid ds mk code r2).
+  destruct ad as [v|].
+  { (* a process of an earlier run is still running: RUNNING, wait for it *)
+    assert (Ep : p = (w_pc (w_st r2 RUNNING) (PExt AAdopt), false)) by reflexivity. rewrite Ep. simpl.
+    assert (C2 : cur r2 = news) by (subst r2; destruct mk; simpl; auto).
+    assert (U2 : uns r2 = Z.of_nat (count_nok (cur r2))) by (subst r2; destruct mk; simpl; auto).
+    assert (H2 : held r2 = []) by (subst r2; destruct mk; simpl; auto).
+    assert (L2 : launches r2 = 0%nat) by (subst r2; destruct mk; simpl; auto).
+    assert (F2 : fdep r2 = fdep r1) by (subst r2; destruct mk; simpl; auto).
+    split.
+    { constructor; simpl; auto; try discriminate; try congruence; try lia.
+      intros _. split; [rewrite C2; congruence|exact U2]. }
+    split; [exact C2|]. split; [reflexivity|]. split; [split; [discriminate|intros (X & _); discriminate]|].
+    split; [discriminate|]. split; [exact H2|]. split; [exact L2|]. split; [discriminate|]. split; [discriminate|].
+    split; [rewrite F2, <- C1; exact Rfd|]. split; [reflexivity|]. right; right; right; reflexivity. }
+  assert (M2 : lmid ds mk code None r2).
   { subst r2. destruct mk; constructor; simpl; auto; try congruence; try lia.
     - intros _ D. destruct Rs as [(S&_)|[(S&_)|(S&_)]]; congruence.
-    - intros E _. destruct Rs as [(S&_)|[(S&_)|(S&_&F)]]; congruence.
+    - intros _ E _. destruct Rs as [(S&_)|[(S&_)|(S&_&F)]]; congruence.
     - intros X. rewrite (Rf X). auto. }
   assert (D2 : st r2 = READY /\ ev r2 = true \/ finished (st r2) = true \/ st r2 = WAITING /\ uns r2 <> 0).
   { subst r2. destruct mk; simpl; auto.
@@ -509,59 +543,70 @@ Proof.
 Qed.
 
 (* the other steps of the coroutine, job-local part *)
-Lemma lmid_of_linv : forall ds mk code r, linv ds mk code r -> started (pc r) = true -> held r = [] ->
+(* a job that is in its loop or in aio_start has no process left by an earlier run *)
+Lemma ad_none : forall ds mk code ad r, linv ds mk code ad r -> started (pc r) = true ->
+  is_adopt (pc r) = false -> past_loop (pc r) = false -> ad = None.
+Proof.
+  intros ds mk code ad r L S A P. destruct ad as [v|]; auto.
+  destruct (l_ad L) as [X|(X & _)]; auto; try discriminate; congruence.
+Qed.
+
+Lemma lmid_of_linv : forall ds mk code ad r, linv ds mk code ad r -> started (pc r) = true -> held r = [] ->
   (finished (st r) = false -> launches r = 0%nat) ->
   (finished (st r) = true -> launches r = 1%nat -> st r = code_state code) ->
   (mk = true -> st r = DONE) ->
-  lmid ds mk code r.
+  ad = None -> is_adopt (pc r) = false ->
+  lmid ds mk code ad r.
 Proof.
-  intros ds mk code r L S H NF FIN MK. constructor; auto.
+  intros ds mk code ad r L S H NF FIN MK ADN NA. constructor; auto.
   - apply (l_CI L S).
   - apply (l_L1 L).
   - intros L1. apply (l_L2 L L1).
   - apply (l_L0 L).
   - apply (l_E L).
-  - apply (l_F L).
+  - intros X. destruct (l_F L X) as [Y|Y]; auto. congruence.
+  - intros X. congruence.
 Qed.
 
-Lemma lmid_st : forall ds mk code r v, lmid ds mk code r -> mk = false ->
+Lemma lmid_st : forall ds mk code ad r v, lmid ds mk code ad r -> mk = false -> ad = None ->
   (v = DONE -> launches r = 1%nat) -> (v = ERROR -> launches r = 0%nat -> fdep r = true) ->
   ((exists i, nth_error (cur r) i = Some DFAIL) -> finished v = true) ->
   (finished v = true -> launches r = 1%nat -> v = code_state code) ->
   (finished v = false -> launches r = 0%nat) ->
-  lmid ds mk code (w_st r v).
+  lmid ds mk code ad (w_st r v).
 Proof.
-  intros ds mk code r v [CI L1 MK1 L0 MK ME MF MH MFIN MNF] M D E F FIN NF.
+  intros ds mk code ad r v [CI L1 MK1 L0 MK ME MF MH MFIN MNF MAD] M ADN D E F FIN NF.
   constructor; simpl; auto; try congruence.
   intros L D'. specialize (D D'). congruence.
 Qed.
 
 (* PWoken ALockOutAbort: the aborted start returns *)
-Lemma abort_l_ok : forall ds mk code r, linv ds mk code r -> pc r = PWoken ALockOutAbort -> held r = [] ->
+Lemma abort_l_ok : forall ds mk code ad r, linv ds mk code ad r -> pc r = PWoken ALockOutAbort -> held r = [] ->
   let p := abort_l true r in
-  linv ds mk code (fst p) /\ loop_shape (if uns r =? 0 then fst (set_event_l (w_st r READY)) else w_st r WAITING) p.
+  linv ds mk code ad (fst p) /\ loop_shape (if uns r =? 0 then fst (set_event_l (w_st r READY)) else w_st r WAITING) p.
 Proof.
-  intros ds mk code r L P H p.
+  intros ds mk code ad r L P H p.
   assert (S : started (pc r) = true) by (rewrite P; auto).
+  assert (ADN : ad = None) by (apply (ad_none L S); rewrite P; reflexivity).
   assert (L0 : launches r = 0%nat).
   { pose proof (l_L1 L). destruct (launches r) as [|[|n]] eqn:E; auto; try lia.
     destruct (l_L2 L E) as (_ & [X|(X&_)]); rewrite P in X; discriminate. }
   assert (MK : mk = false).
-  { destruct mk; auto. pose proof (l_mk L eq_refl S) as D. pose proof (l_D L D) as X. rewrite P in X. discriminate. }
+  { destruct mk; auto. pose proof (l_mk L eq_refl ADN S) as D. pose proof (l_D L D) as X. rewrite P in X. discriminate. }
   assert (NE : st r <> ERROR).
-  { intros E. destruct (l_EN L E) as [X|X]; rewrite P in X; discriminate. }
+  { intros E. destruct (l_EN L E) as [X|[X|X]]; rewrite P in X; discriminate. }
   assert (ND : st r <> DONE).
   { intros E. pose proof (l_D L E) as X; rewrite P in X; discriminate. }
   assert (NFL : (exists i, nth_error (cur r) i = Some DFAIL) -> False).
-  { intros X. pose proof (l_F L X) as F. destruct (st r); simpl in F; congruence. }
-  assert (M : lmid ds mk code r).
-  { apply lmid_of_linv; auto; try congruence. }
+  { intros X. destruct (l_F L X) as [F|F]; [destruct (st r); simpl in F; congruence|rewrite P in F; discriminate]. }
+  assert (M : lmid ds mk code ad r).
+  { apply lmid_of_linv; auto; try congruence. rewrite P; reflexivity. }
   unfold p, abort_l. simpl. destruct (uns r =? 0) eqn:U.
   - destruct (set_event_l (w_st r READY)) as [r2 w2] eqn:SE. apply set_event_l_spec in SE. simpl in SE.
     destruct SE as (S_st & S_uns & S_cur & S_held & S_fdep & S_l & S_ev & S_pc). simpl.
     split; [|apply main_loop_l_shape].
     apply main_loop_l_ok; [|left; auto].
-    destruct M as [CI L1 MK1 L0' MK' ME MF MH MFIN MNF].
+    destruct M as [CI L1 MK1 L0' MK' ME MF MH MFIN MNF MAD].
     constructor; rewrite ?S_st, ?S_uns, ?S_cur, ?S_held, ?S_fdep, ?S_l; auto; try congruence; try discriminate;
       try (intros X; exfalso; auto; fail).
   - simpl. split; [|apply main_loop_l_shape].
@@ -571,19 +616,16 @@ Proof.
 Qed.
 
 (* PWoken AProc: the process has exited *)
-Lemma proc_l_ok : forall ds mk code r, linv ds mk code r -> pc r = PWoken AProc -> held r = [] ->
+Lemma proc_l_ok : forall ds mk code ad r, linv ds mk code ad r -> pc r = PWoken AProc -> held r = [] ->
   let p := proc_l code r in
-  linv ds mk code (fst p) /\ loop_shape (w_st r (code_state code)) p /\ pc (fst p) = PExt ADoneH.
+  linv ds mk code ad (fst p) /\ loop_shape (w_st r (code_state code)) p /\ pc (fst p) = PExt ADoneH.
 Proof.
-  intros ds mk code r L P H p.
+  intros ds mk code ad r L P H p.
   assert (S : started (pc r) = true) by (rewrite P; auto).
+  assert (ADN : ad = None) by (apply (ad_none L S); rewrite P; reflexivity).
   assert (L1 : launches r = 1%nat) by (apply (l_run L); rewrite P; auto).
   destruct (l_L2 L L1) as (MK & _).
-  assert (NE : st r <> ERROR).
-  { intros E. destruct (l_EN L E) as [X|X]; rewrite P in X; discriminate. }
-  assert (ND : st r <> DONE).
-  { intros E. pose proof (l_D L E) as X; rewrite P in X; discriminate. }
-  assert (M : lmid ds mk code (w_st r (code_state code))).
+  assert (M : lmid ds mk code ad (w_st r (code_state code))).
   { pose proof (l_CI L S). pose proof (l_L1 L).
     constructor; simpl; auto; try congruence; try lia.
     - intros _. unfold code_state. destruct (code =? 0); auto.
@@ -593,10 +635,31 @@ Proof.
   split; [apply finish_l_ok; auto|]. split; [apply finish_l_shape; auto|reflexivity].
 Qed.
 
-(* a change of program counter that keeps the class of the job *)
-Lemma linv_deliver : forall ds mk code r a, linv ds mk code r -> pc r = PExt a -> linv ds mk code (w_pc r (PWoken a)).
+(* PWoken AAdopt: the process left by an earlier run has ended *)
+Lemma adopt_l_ok : forall ds mk code v r, linv ds mk code (Some v) r -> pc r = PWoken AAdopt -> finished v = true ->
+  let p := adopt_l v r in
+  linv ds mk code (Some v) (fst p) /\ loop_shape (w_st r v) p /\ pc (fst p) = PExt ADoneH.
 Proof.
-  intros ds mk code r a [A D EV CI L1 RUN L2 L0 MK E EN UN F H WR RS WS RT] P.
+  intros ds mk code v r L P FV p.
+  assert (S : started (pc r) = true) by (rewrite P; auto).
+  assert (L0 : launches r = 0%nat).
+  { pose proof (l_L1 L). destruct (launches r) as [|[|n]] eqn:E; auto; try lia.
+    destruct (l_L2 L E) as (_ & [X|(X&_)]); rewrite P in X; discriminate. }
+  assert (H : held r = []).
+  { destruct (held r) eqn:E; auto. assert (X : held r <> []) by congruence.
+    destruct (l_held L X) as [Y|[Y|[Y|Y]]]; rewrite P in Y; discriminate. }
+  assert (M : lmid ds mk code (Some v) (w_st r v)).
+  { pose proof (l_CI L S). pose proof (l_L1 L).
+    constructor; simpl; auto; try congruence; try lia; try discriminate.
+    intros _ D. right. congruence. }
+  unfold p, adopt_l. unfold loop_tail_l. simpl. rewrite FV.
+  split; [apply finish_l_ok; auto|]. split; [apply finish_l_shape; auto|reflexivity].
+Qed.
+
+(* a change of program counter that keeps the class of the job *)
+Lemma linv_deliver : forall ds mk code ad r a, linv ds mk code ad r -> pc r = PExt a -> linv ds mk code ad (w_pc r (PWoken a)).
+Proof.
+  intros ds mk code ad r a [A D EV CI L1 RUN L2 L0 MK E EN UN F H WR RS WS RT AD ADPC] P.
   constructor; simpl; auto; try discriminate; rewrite P in *; simpl in *;
     try (destruct a; simpl in *; auto; fail).
   - intros X. destruct (EN X) as [Y|Y]; [discriminate|]. right. destruct a; auto.
@@ -605,84 +668,85 @@ Qed.
 
 Ltac pcc := intros; try (intuition (try discriminate; try congruence; auto); fail).
 
-Lemma linv_lockoutrun : forall ds mk code r, linv ds mk code r -> pc r = PWoken ALockOutRun -> linv ds mk code (w_pc r (PExt AProc)).
+Lemma linv_lockoutrun : forall ds mk code ad r, linv ds mk code ad r -> pc r = PWoken ALockOutRun -> linv ds mk code ad (w_pc r (PExt AProc)).
 Proof.
-  intros ds mk code r [A D EV CI L1 RUN L2 L0 MK E EN UN F H WR RS WS RT] P.
+  intros ds mk code ad r [A D EV CI L1 RUN L2 L0 MK E EN UN F H WR RS WS RT AD ADPC] P.
   constructor; simpl; rewrite P in *; simpl in *; pcc.
 Qed.
 
-Lemma linv_returned : forall ds mk code r, linv ds mk code r -> pc r = PWoken ADoneH -> linv ds mk code (w_pc r (PReturned (st r))).
+Lemma linv_returned : forall ds mk code ad r, linv ds mk code ad r -> pc r = PWoken ADoneH -> linv ds mk code ad (w_pc r (PReturned (st r))).
 Proof.
-  intros ds mk code r [A D EV CI L1 RUN L2 L0 MK E EN UN F H WR RS WS RT] P.
+  intros ds mk code ad r [A D EV CI L1 RUN L2 L0 MK E EN UN F H WR RS WS RT AD ADPC] P.
   constructor; simpl; rewrite P in *; simpl in *; pcc.
 Qed.
 
-Lemma linv_spawned : forall ds mk code r, linv ds mk code r -> pc r = PNot -> linv ds mk code (w_pc r PSpawned).
+Lemma linv_spawned : forall ds mk code ad r, linv ds mk code ad r -> pc r = PNot -> linv ds mk code ad (w_pc r PSpawned).
 Proof.
-  intros ds mk code r [A D EV CI L1 RUN L2 L0 MK E EN UN F H WR RS WS RT] P.
+  intros ds mk code ad r [A D EV CI L1 RUN L2 L0 MK E EN UN F H WR RS WS RT AD ADPC] P.
   assert (U := UN). rewrite P in U. simpl in U. destruct (U eq_refl) as (U1&U2&U3&U4&U5&U6).
   constructor; simpl; auto; try discriminate; try congruence; try lia;
     try (intros X; rewrite U5 in X; destruct X as [i X]; destruct i; discriminate).
 Qed.
-Lemma linv_dup : forall ds mk code r k, linv ds mk code r -> pc r = PNot -> linv ds mk code (w_pc r (PDup k)).
+Lemma linv_dup : forall ds mk code ad r k, linv ds mk code ad r -> pc r = PNot -> linv ds mk code ad (w_pc r (PDup k)).
 Proof.
-  intros ds mk code r k [A D EV CI L1 RUN L2 L0 MK E EN UN F H WR RS WS RT] P.
+  intros ds mk code ad r k [A D EV CI L1 RUN L2 L0 MK E EN UN F H WR RS WS RT AD ADPC] P.
   assert (U := UN). rewrite P in U. simpl in U. destruct (U eq_refl) as (U1&U2&U3&U4&U5&U6).
   constructor; simpl; auto; try discriminate; try congruence; try lia;
     try (intros X; rewrite U5 in X; destruct X as [i X]; destruct i; discriminate).
 Qed.
 
 (* PWoken ALockIn: aio_start after the job lock has been taken *)
-Lemma lockin_facts : forall ds mk code r, linv ds mk code r -> pc r = PWoken ALockIn ->
+Lemma lockin_facts : forall ds mk code ad r, linv ds mk code ad r -> pc r = PWoken ALockIn ->
   launches r = 0%nat /\ mk = false /\ st r <> ERROR /\ st r <> DONE /\
-  ((exists i, nth_error (cur r) i = Some DFAIL) -> False).
+  ((exists i, nth_error (cur r) i = Some DFAIL) -> False) /\ ad = None.
 Proof.
-  intros ds mk code r L P.
+  intros ds mk code ad r L P.
   assert (S : started (pc r) = true) by (rewrite P; auto).
+  assert (ADN : ad = None) by (apply (ad_none L S); rewrite P; reflexivity).
   assert (L0 : launches r = 0%nat).
   { pose proof (l_L1 L). destruct (launches r) as [|[|n]] eqn:E; auto; try lia.
     destruct (l_L2 L E) as (_ & [X|(X&_)]); rewrite P in X; discriminate. }
   assert (MK : mk = false).
-  { destruct mk; auto. pose proof (l_mk L eq_refl S) as D. pose proof (l_D L D) as X. rewrite P in X. discriminate. }
+  { destruct mk; auto. pose proof (l_mk L eq_refl ADN S) as D. pose proof (l_D L D) as X. rewrite P in X. discriminate. }
   assert (NE : st r <> ERROR).
-  { intros E. destruct (l_EN L E) as [X|X]; rewrite P in X; discriminate. }
+  { intros E. destruct (l_EN L E) as [X|[X|X]]; rewrite P in X; discriminate. }
   assert (ND : st r <> DONE).
   { intros E. pose proof (l_D L E) as X; rewrite P in X; discriminate. }
   repeat split; auto.
-  intros X. pose proof (l_F L X) as F. destruct (st r); simpl in F; congruence.
+  intros X. destruct (l_F L X) as [F|F]; [destruct (st r); simpl in F; congruence|rewrite P in F; discriminate].
 Qed.
 
-Lemma linv_launch : forall ds mk code r hd, linv ds mk code r -> pc r = PWoken ALockIn ->
-  linv ds mk code (w_pc (w_st (w_launches (w_held r hd) (S (launches (w_held r hd)))) RUNNING) (PExt ALockOutRun)).
+Lemma linv_launch : forall ds mk code ad r hd, linv ds mk code ad r -> pc r = PWoken ALockIn ->
+  linv ds mk code ad (w_pc (w_st (w_launches (w_held r hd) (S (launches (w_held r hd)))) RUNNING) (PExt ALockOutRun)).
 Proof.
-  intros ds mk code r hd L P. destruct (lockin_facts L P) as (L0 & MK & NE & ND & NF).
-  destruct L as [A D EV CI L1 RUN L2 L0' MK' E EN UN F H WR RS WS RT].
+  intros ds mk code ad r hd L P. destruct (lockin_facts L P) as (L0 & MK & NE & ND & NF & ADN).
+  destruct L as [A D EV CI L1 RUN L2 L0' MK' E EN UN F H WR RS WS RT AD ADPC].
   constructor; simpl; rewrite P in *; simpl in *; rewrite ?L0; pcc.
 Qed.
 
-Lemma linv_held : forall ds mk code r hd, linv ds mk code r -> pc r = PWoken ALockIn -> linv ds mk code (w_held r hd).
+Lemma linv_held : forall ds mk code ad r hd, linv ds mk code ad r -> pc r = PWoken ALockIn -> linv ds mk code ad (w_held r hd).
 Proof.
-  intros ds mk code r hd [A D EV CI L1 RUN L2 L0' MK' E EN UN F H WR RS WS RT] P.
+  intros ds mk code ad r hd [A D EV CI L1 RUN L2 L0' MK' E EN UN F H WR RS WS RT AD ADPC] P.
   constructor; simpl; rewrite P in *; simpl in *; pcc.
 Qed.
 
-Lemma linv_toabort : forall ds mk code r, linv ds mk code r -> pc r = PWoken ALockIn ->
-  linv ds mk code (w_pc r (PExt ALockOutAbort)).
+Lemma linv_toabort : forall ds mk code ad r, linv ds mk code ad r -> pc r = PWoken ALockIn ->
+  linv ds mk code ad (w_pc r (PExt ALockOutAbort)).
 Proof.
-  intros ds mk code r L P. destruct (lockin_facts L P) as (L0 & MK & NE & ND & NF).
-  destruct L as [A D EV CI L1 RUN L2 L0' MK' E EN UN F H WR RS WS RT].
+  intros ds mk code ad r L P. destruct (lockin_facts L P) as (L0 & MK & NE & ND & NF & ADN).
+  destruct L as [A D EV CI L1 RUN L2 L0' MK' E EN UN F H WR RS WS RT AD ADPC].
   constructor; simpl; rewrite P in *; simpl in *; rewrite ?L0; pcc.
 Qed.
 
-Lemma linv_release : forall ds mk code r, linv ds mk code r -> started (pc r) = true -> linv ds mk code (w_held r []).
+Lemma linv_release : forall ds mk code ad r, linv ds mk code ad r -> started (pc r) = true -> linv ds mk code ad (w_held r []).
 Proof.
-  intros ds mk code r [A D EV CI L1 RUN L2 L0' MK' E EN UN F H WR RS WS RT] S.
+  intros ds mk code ad r [A D EV CI L1 RUN L2 L0' MK' E EN UN F H WR RS WS RT AD ADPC] S.
   constructor; simpl; pcc.
 Qed.
 
 (* ------------------------------------------------------------------ the global invariant *)
 Definition jl (W : workload) (s : state) (x : nat) : Prop :=
-  linv (deps W x) (j_marker (spec W x)) (j_code (spec W x)) (jobs s x).
+  linv (deps W x) (j_marker (spec W x)) (j_code (spec W x)) (adopted W x) (jobs s x).
 
 Definition cb_ok (s : state) (c : cb) : Prop :=
   match c with
@@ -698,10 +762,10 @@ Record Inv (W : workload) (s : state) : Prop := {
   I_CO : forall x i k, started (pc (jobs s x)) = true -> nth_error (cur (jobs s x)) i = Some DOK ->
            nth_error (deps W x) i = Some (DJob k) -> st (jobs s k) = DONE;
   I_CF : forall x i, started (pc (jobs s x)) = true -> nth_error (cur (jobs s x)) i = Some DFAIL ->
-           exists k, nth_error (deps W x) i = Some (DJob k) /\ st (jobs s k) = ERROR;
+           exists k, nth_error (deps W x) i = Some (DJob k) /\ (st (jobs s k) = ERROR \/ adopted W k <> None);
   I_RD : forall x k, (st (jobs s x) = READY \/ in_start (pc (jobs s x)) = true) -> In (DJob k) (deps W x) ->
            st (jobs s k) = DONE;
-  I_FD : forall x, fdep (jobs s x) = true -> exists k, In (DJob k) (deps W x) /\ st (jobs s k) = ERROR;
+  I_FD : forall x, fdep (jobs s x) = true -> exists k, In (DJob k) (deps W x) /\ (st (jobs s k) = ERROR \/ adopted W k <> None);
   I_LD : forall x k, launches (jobs s x) = 1%nat -> In (DJob k) (deps W x) -> st (jobs s k) = DONE;
   I_sub : forall x k, spawned (pc (jobs s x)) = true -> In (DJob k) (deps W x) -> spawned (pc (jobs s k)) = true;
   I_cnt : unfinished s = Z.of_nat (length (filter (cntf s) (seq 0 (njobs W))));
@@ -747,7 +811,7 @@ Qed.
 Definition stab_gen (strict : bool) (s s' : state) : Prop :=
   forall k,
     (st (jobs s k) = DONE -> st (jobs s' k) = DONE) /\
-    (st (jobs s k) = ERROR -> st (jobs s' k) = ERROR) /\
+    (st (jobs s k) = ERROR -> past_loop (pc (jobs s k)) = true -> st (jobs s' k) = ERROR) /\
     (past_loop (pc (jobs s k)) = true -> past_loop (pc (jobs s' k)) = true) /\
     (forall r0, pc (jobs s k) = PReturned r0 -> pc (jobs s' k) = PReturned r0) /\
     (launches (jobs s' k) = launches (jobs s k) \/
@@ -769,8 +833,8 @@ Qed.
 Lemma inv_update : forall strict W s s' j r',
   wf W = true -> Inv W s -> (j < njobs W)%nat ->
   jobs s' = upd (jobs s) j r' ->
-  linv (deps W j) (j_marker (spec W j)) (j_code (spec W j)) r' ->
-  (st (jobs s j) = DONE -> st r' = DONE) -> (st (jobs s j) = ERROR -> st r' = ERROR) ->
+  linv (deps W j) (j_marker (spec W j)) (j_code (spec W j)) (adopted W j) r' ->
+  (st (jobs s j) = DONE -> st r' = DONE) -> (st (jobs s j) = ERROR -> st r' = ERROR \/ is_adopt (pc (jobs s j)) = true) ->
   (started (pc (jobs s j)) = true -> started (pc r') = true) ->
   (past_loop (pc (jobs s j)) = true -> past_loop (pc r') = true) ->
   (forall r0, pc (jobs s j) = PReturned r0 -> pc r' = PReturned r0) ->
@@ -781,9 +845,9 @@ Lemma inv_update : forall strict W s s' j r',
   (forall i k, started (pc r') = true -> nth_error (cur r') i = Some DOK -> nth_error (deps W j) i = Some (DJob k) ->
      st (jobs s k) = DONE) ->
   (forall i, started (pc r') = true -> nth_error (cur r') i = Some DFAIL ->
-     exists k, nth_error (deps W j) i = Some (DJob k) /\ st (jobs s k) = ERROR) ->
+     exists k, nth_error (deps W j) i = Some (DJob k) /\ (st (jobs s k) = ERROR \/ adopted W k <> None)) ->
   ((st r' = READY \/ in_start (pc r') = true) -> forall k, In (DJob k) (deps W j) -> st (jobs s k) = DONE) ->
-  (fdep r' = true -> exists k, In (DJob k) (deps W j) /\ st (jobs s k) = ERROR) ->
+  (fdep r' = true -> exists k, In (DJob k) (deps W j) /\ (st (jobs s k) = ERROR \/ adopted W k <> None)) ->
   (launches r' = 1%nat -> forall k, In (DJob k) (deps W j) -> st (jobs s k) = DONE) ->
   unfinished s' - unfinished s = (if counted (pc r') then 1 else 0) - (if counted (pc (jobs s j)) then 1 else 0) ->
   (forall x, In x (failed s') <->
@@ -798,8 +862,10 @@ Proof.
   assert (ATJ : jobs s' j = r') by (rewrite EJ; apply upd_same).
   assert (STD : forall k, st (jobs s k) = DONE -> st (jobs s' k) = DONE).
   { intros k D. destruct (Nat.eq_dec k j) as [->|N]; [rewrite ATJ; auto|rewrite SAME; auto]. }
-  assert (STE : forall k, st (jobs s k) = ERROR -> st (jobs s' k) = ERROR).
+  assert (STE0 : forall k, st (jobs s k) = ERROR -> st (jobs s' k) = ERROR \/ is_adopt (pc (jobs s k)) = true).
   { intros k D. destruct (Nat.eq_dec k j) as [->|N]; [rewrite ATJ; auto|rewrite SAME; auto]. }
+  assert (STE : forall k, st (jobs s k) = ERROR \/ adopted W k <> None -> st (jobs s' k) = ERROR \/ adopted W k <> None).
+  { intros k [D|D]; auto. destruct (STE0 k D) as [X|X]; auto. right. apply (l_adpc (I_loc I k) X). }
   assert (STA : forall k, started (pc (jobs s k)) = true -> started (pc (jobs s' k)) = true).
   { intros k D. destruct (Nat.eq_dec k j) as [->|N]; [rewrite ATJ; auto|rewrite SAME; auto]. }
   assert (SPW : forall k, spawned (pc (jobs s k)) = true -> spawned (pc (jobs s' k)) = true).
